@@ -250,10 +250,29 @@ impl Truth {
     }
     fn check_totals(&self, run: &mut Run, ctx: &str, tracer: &Tracer) {
         let snap = tracer.snapshot();
+        check_limits(run, ctx, tracer);
         for h in snap.hops() {
             let t = self.totals.get(&h.ttl()).copied().unwrap_or_default();
             if (h.total_sent() as u64, h.total_recv() as u64, h.total_failed() as u64) != t {
                 run.fail("c01-stack-totals", format!("{ctx}: hop ttl {} has sent/recv/failed {}/{}/{} but the published outcomes sum to {}/{}/{}", h.ttl(), h.total_sent(), h.total_recv(), h.total_failed(), t.0, t.1, t.2));
+            }
+        }
+    }
+}
+
+/// the configured limits hold in every snapshot, also after `Tracer::clear` (C05: sample history,
+/// C15: number of flows)
+fn check_limits(run: &mut Run, ctx: &str, tracer: &Tracer) {
+    let snap = tracer.snapshot();
+    if snap.flows().len() > tracer.max_flows() {
+        run.fail("c15-stack-flow-limit", format!("{ctx}: {} flows, max_flows {}", snap.flows().len(), tracer.max_flows()));
+    }
+    let mut ids = vec![trippy_core::FlowId(0)];
+    ids.extend(snap.flows().iter().map(|f| f.1));
+    for id in ids {
+        for h in snap.hops_for_flow(id) {
+            if h.samples().len() > tracer.max_samples() {
+                run.fail("c05-stack-sample-limit", format!("{ctx}: flow {} hop ttl {} holds {} samples, max_samples {}", id.0, h.ttl(), h.samples().len(), tracer.max_samples()));
             }
         }
     }
@@ -305,7 +324,7 @@ pub struct View<'a> {
 }
 
 /// run one case open loop; `plan` is asked before every iteration
-pub fn open_loop(run: &mut Run, cfg: &SCfg, t0: u64, iters: usize, plan: &mut dyn FnMut(&View<'_>, &mut Rng) -> Plan, rng: &mut Rng) {
+pub fn open_loop(run: &mut Run, cfg: &SCfg, t0: u64, iters: usize, clears: bool, plan: &mut dyn FnMut(&View<'_>, &mut Rng) -> Plan, rng: &mut Rng) {
     crate::strategy::set_addr_num(true);
     let ctx = cfg.new_line(t0);
     clock::enable(t0);
@@ -360,10 +379,24 @@ pub fn open_loop(run: &mut Run, cfg: &SCfg, t0: u64, iters: usize, plan: &mut dy
     let mut truth = Truth::default();
     let mut failed: Option<Error> = None;
     let mut alive = true;
+    let mut cleared_once = false;
     for it in 0..iters {
         if st.finished(sc.max_rounds) {
             run.count("stack:finished");
             break;
+        }
+        // now and then the user clears the trace data (`Tracer::clear`, another thread in the real program)
+        if clears && (rng.chance(1, 40) || (!cleared_once && published.borrow().len() == 1)) {
+            cleared_once = true;
+            tracer.clear();
+            truth.totals.clear();
+            run.op("stack clear".into(), "ok".into());
+            run.count("stack:clear");
+            if rng.chance(1, 2) {
+                check_limits(run, &ctx, &tracer);
+                let s = guarded(|| crate::agg::show_full(&tracer.snapshot())).unwrap_or_else(|_| "panic".into());
+                run.op("stack dump".into(), format!("{s} error=-"));
+            }
         }
         let pl = plan(&View { cfg, live: &live, outstanding: &outstanding, previous: &previous, now: clock::now_ns(), iteration: it }, rng);
         let rd = match pl.readable { Poll::Yes => "r", Poll::No => "n", Poll::Fails => "e" };
@@ -493,6 +526,7 @@ pub fn open_loop(run: &mut Run, cfg: &SCfg, t0: u64, iters: usize, plan: &mut dy
         if pubs_now.len() > npub {
             truth.check_round(run, &format!("{ctx} … {req}"), &pubs_now[npub].1);
             previous = std::mem::take(&mut outstanding);
+            check_limits(run, &ctx, &tracer);
             run.count("stack:round-published");
         }
         drop(pubs_now);
@@ -694,10 +728,10 @@ fn gen_cfg(rng: &mut Rng, proto: char, v6: bool) -> SCfg {
         src, dst, proto, strat, pd, privileged,
         size: *rng.pick(&[min, 84, 200, 1024]), pattern: rng.next() as u8, tos: rng.next() as u8, ext: rng.chance(1, 2),
         initial: *rng.pick(&[0u16, 33434, 64000, 64511]), trace_id: *rng.pick(&[1u16, 4660, 65535]),
-        max_rounds: Some(rng.range(2, 6) as usize), first, max: first + rng.below(8) as u8, inflight: rng.range(1, 6) as u8,
+        max_rounds: Some(rng.range(3, 9) as usize), first, max: first + rng.below(8) as u8, inflight: rng.range(1, 6) as u8,
         grace: *rng.pick(&[0, 5 * MS, 40 * MS]), min_round: *rng.pick(&[0, 20 * MS]), max_round: *rng.pick(&[50 * MS, 120 * MS]),
-        read_timeout: 10 * MS, tcp_timeout: *rng.pick(&[30 * MS, 500 * MS]), max_samples: rng.range(1, 5) as usize,
-        max_flows: rng.range(1, 4) as usize,
+        read_timeout: 10 * MS, tcp_timeout: *rng.pick(&[30 * MS, 500 * MS]), max_samples: *rng.pick(&[1usize, 2, 6]),
+        max_flows: *rng.pick(&[1usize, 3, 5]),
     }
 }
 
@@ -848,9 +882,22 @@ pub fn run(rng: &mut Rng, thorough: bool, _corpus: &[String]) -> Run {
                 let path_len = cfg.first + rng.below(6) as u8;
                 let loss = *rng.pick(&[0u64, 10, 40]);
                 let mut plan = plan_path(path_len, loss, (k % 3) as u8);
-                open_loop(&mut run, &cfg, rng.below(1000) * 1000, if thorough { 400 } else { 160 }, &mut plan, rng);
+                open_loop(&mut run, &cfg, rng.below(1000) * 1000, if thorough { 400 } else { 160 }, k % 2 == 1, &mut plan, rng);
             }
         }
+    }
+    // directed: the limits of the `State` survive `Tracer::clear` (cleared after the first round, then
+    // enough rounds with changing responders to exceed the smaller limit)
+    for (v6, ms, mf) in [(false, 6usize, 1usize), (true, 1, 5), (false, 2, 5), (true, 6, 3)] {
+        let mut cfg = gen_cfg(rng, 'i', v6);
+        cfg.max_samples = ms;
+        cfg.max_flows = mf;
+        cfg.max_rounds = Some(9);
+        cfg.first = 1;
+        cfg.max = 4;
+        let mut plan = plan_path(3, 0, 0);
+        run.count("directed:clear-limits");
+        open_loop(&mut run, &cfg, 0, 400, true, &mut plan, rng);
     }
     // closed loop: silent network, the run has to end by itself after max_rounds rounds
     for proto in ['i', 'u', 't'] {
